@@ -143,7 +143,8 @@ example : (pids sampleNet).Nodup := by decide
 /-- D20b: `self.fc = Lin(name="custom")`. -/
 def explicitNet : Mod := setChild (mkModule (some "net")) "fc" (lin (some "custom") 0)
 
-/-- The full statement (any explicit name) is false: initializer `net.custom.weight`, key `fc.weight`. -/
+/-- The full statement (any explicit name) is false **on the current code** (open finding D20b, not a pre-fix
+statement): initializer `net.custom.weight`, key `fc.weight`. -/
 theorem initializer_names_full_refuted_explicit :
     ¬ (∀ root : Mod, (pids root).Nodup →
         realize root = (stateDict "" root).map (fun x => (rootKey root x.1, x.2))) := by
@@ -158,7 +159,8 @@ def sharedNet : Mod :=
   setChild (setChild (mkModule (some "net")) "b1" (setChild (mkModule none) "fc" (lin none 0))) "b2"
     (setChild (mkModule none) "fc" (lin none 0))
 
-/-- Without `TreeNotDag` the statement is false even when every name agrees with its key. -/
+/-- Without `TreeNotDag` the statement is false even when every name agrees with its key (necessity of a hypothesis
+on the current code; not a defect, not a pre-fix statement). -/
 theorem initializer_names_full_refuted_shared :
     ¬ (∀ root : Mod, RootNamed root →
         realize root = (stateDict "" root).map (fun x => (rootKey root x.1, x.2))) := by
@@ -202,8 +204,8 @@ def nestedCtl : List (List String) := [["block1"], ["block1", "inner"], ["block2
 example : realizeB SubPolicy.code nestedCtl nestedNet =
     [("model.block1.inner.leaf.weight", 0), ("model.block2.inner.weight", 1)] := by decide
 
-/-- The sub-builder must inherit from its **parent**: copying the root builder's scope instead (seeded change
-C18-6) loses the modules entered inside the outer body — at nesting depth 2 both leaves collide. -/
+/-- (A statement about an *alternative policy*, never the code of /repo.)  The sub-builder must inherit from its
+**parent**: copying the root builder's scope instead (seeded change C18-6) loses the modules entered inside the outer body — at nesting depth 2 both leaves collide. -/
 theorem scope_inherit_root_refuted :
     ¬ (∀ (ctl : List (List String)) (root : Mod), realizeB ⟨false, true⟩ ctl root = realize root) := by
   intro h
@@ -333,8 +335,12 @@ arbitrarily nested `subgraph` constructions — every automatically generated va
 the root graph and of all subgraphs of the builder tree; every call appends one node (an inlining: all clones)
 to one of them; opening and closing a subgraph only moves graphs between "current / enclosing / finished"; so
 the count strictly increases along the trace.
-This is the statement on the tuples; `names_unique_rendered` lifts it to the rendered strings. -/
-theorem names_unique_partial (fns : List Fn) (tr : List Item) :
+This is the statement on the *tuples* of automatic **value** names (no hypothesis; formerly `names_unique_partial`,
+a name kept from the time it carried `NoSubgraphs`); `names_unique_rendered` lifts it to the rendered strings.
+Node names (`{op}_node_{count}`, explicit `_name=`, `prefix + body node name`) have **no** uniqueness theorem: they are
+checked on the real serialized model by the name walker on every run (and refuted for the pre-fix code in
+`names_unique_prefix_refuted`). -/
+theorem names_unique_tuples (fns : List Fn) (tr : List Item) :
     ((build fns tr).vkeys.filter isAutoKey).Nodup :=
   (Inv.foldl fns tr St.init Inv.init).2
 
@@ -343,16 +349,16 @@ theorem auto_counts_bounded (fns : List Fn) (tr : List Item) :
     ∀ k ∈ (build fns tr).vkeys, ∀ p o c i, k = VKey.auto p o c i → c < nodeCount true (build fns tr) :=
   (Inv.foldl fns tr St.init Inv.init).1
 
-/-- **Names are unique — as strings** (after commit 5c71050: `{op}_{count}` / `{op}_{i}_{count}`).  For every
+/-- **Automatic value names are unique — as strings** (value names only, not node names; after commit 5c71050: `{op}_{count}` / `{op}_{i}_{count}`).  For every
 trace and *every* operator / function / scope name — no "plain name" hypothesis — the automatic value names, as
 rendered by `_adapt_outputs` + `_qualify_value_name`, are pairwise distinct: an automatic name ends in the digits
 of its node count preceded by a non-digit (`digit_suffix_unique`), the count is unique per node across the builder
-tree (`names_unique_partial`), and the names made with one count share scope and op (`sameNode_foldl`) and differ
+tree (`names_unique_tuples`), and the names made with one count share scope and op (`sameNode_foldl`) and differ
 in the output index.  (Names chosen by the user — explicit `_outputs`, graph inputs — and the `prefix + body name`
 family of `call_inline` are outside this statement: their uniqueness is the caller's / the callee's.) -/
 theorem names_unique_rendered (fns : List Fn) (tr : List Item) :
     (((build fns tr).vkeys.filter isAutoKey).map VKey.render).Nodup := by
-  have h := renderNew_nodup _ (names_unique_partial fns tr)
+  have h := renderNew_nodup _ (names_unique_tuples fns tr)
     (sameNode_foldl fns tr St.init Inv.init (by intro p o c i p' o' i' h; simp [St.init] at h))
   have hr : VKey.render = VKey.renderNew := by
     funext k; simp [VKey.render, countLast]
@@ -386,7 +392,7 @@ example : (build [] d20aTrace).valueNames =
 example : (build [] d20aTrace).nodeNames = ["Add_node_0", "If_node_3", "Add_node_1", "Add_node_2"] := by decide
 example : ∀ it ∈ d20aTrace, simpleItem it = true := by decide
 
-/-- non-vacuity of `names_unique_partial`: a trace with scopes, literals, a multi-output op and a call. -/
+/-- non-vacuity of `names_unique_tuples`: a trace with scopes, literals, a multi-output op and a call. -/
 def simpleTrace : List Item :=
   [.input "x", .push "blk", .op "Add" [.ref 0, .lit (.num "1" 1000 "f32")] (.auto 1) none [] [],
    .op "Split" [.ref 1] (.auto 3) none [] [], .pop, .call 0 [.ref 2, .ref 3] none [], .output 5 (some "out")]
@@ -743,8 +749,9 @@ theorem inline_appends_clones (total : Bool) (fns : List Fn) (st : St) (fi : Nat
         (resolveArgs (if pfx = "" then st else pushScope st pfx) args).2).2.1) :=
   doInline_appends total fns st fi args outs pfx as f hf h1 h2 h3
 
-/-- Corollary: under an interpretation that gives the function symbol the meaning of its body, the values
-`call_inline` returns equal the values `call` returns. -/
+/-- Corollary (near-definitional: `inline_eq_call_partial` rewritten with the hypothesis `hdef`): under an
+interpretation that gives the function symbol the meaning of its body, the values `call_inline` returns equal the
+values `call` returns. -/
 theorem inline_eq_call_values {α : Type} (S : OpSem α) (total : Bool) (st : St) (f : Fn)
     (actuals : List (Option Nat)) (e : Env α) (ha : ∀ i, some i ∈ actuals → i < st.L)
     (hssa : ∀ n ∈ f.nodes, n.outs.Nodup)
@@ -766,7 +773,9 @@ nodes `call_inline` appends — the clones of the body with every reference attr
 `effectiveAttrs true f passed` = passed values, then the declared default of each parameter not passed — evaluate,
 at the function's outputs, to what a *call node* carrying `passed` denotes (`callMeaning`: the body with reference
 attributes bound to the passed value, else the declared default), and touch no earlier value.
-That `doInline` appends exactly these clones is `inline_appends_clones`. -/
+That `doInline` appends exactly these clones is `inline_appends_clones`.
+Hypotheses (the same as `inline_eq_call_partial`, of which this is the instance for the resolved function): the actuals
+exist (`< st.L`) and each body node's outputs are distinct names (SSA body). -/
 theorem inline_attrs_eq_call {α : Type} (S : OpSem α) (st : St) (f : Fn) (passed : List (String × AVal))
     (actuals : List (Option Nat)) (e : Env α) (ha : ∀ i, some i ∈ actuals → i < st.L)
     (hssa : ∀ n ∈ f.nodes, n.outs.Nodup) :
@@ -892,7 +901,9 @@ theorem partition_keeps_positionals (ph : Bool) (sig : List SigParam) (args : Li
   · exact (partGo_keeps ph sig args kwargs [] [] I A h hne).1
 
 /-- **Every input sits at the position of its parameter** (helper with placeholders, commit b7afd5e).  For a
-signature whose inputs (none variadic) precede its attributes — the shape of every `OpSignature` — and every call:
+signature whose inputs are **all non-variadic** and precede its attributes — the shape of an `OpSignature` *without* a
+variadic input; operators with one (Concat, Sum, Max, Min, Loop, …) are outside this theorem: for them only
+`partition_keeps_positionals` and the per-run `part` correspondence apply — and every call:
 the node's inputs are, position by position, the positional argument at that index, else the keyword argument of
 that parameter's name, else absent; absent inputs at the end are dropped.  In particular an input given by keyword
 after an omitted optional input stays in its own slot (`Clip(x, max=hi)` = `Clip(x, ∅, hi)`). -/
